@@ -110,6 +110,24 @@ Fixpoint linked (target : string) (hops : list hop) : bool :=
   | h :: ((h2 :: _) as r) => String.eqb (cc_member (h_call h)) (cc_method (h_call h2)) && linked target r
   end.
 
+(** What calling entry point [name] (dynamic branch [b]: "str" / "File") hands to the OS, following the generated table of
+    entry points down to the access sites: the accesses of the method itself plus those of every method it delegates to.
+    Compared with the audit-hook observation by the check (ties Gen/FsCensus_gen.v [entry_points] to the implementation). *)
+Fixpoint entry_accesses (fuel : nat) (g : gx) (cwd root_arg : str) (entries : list ccall) (sites : list site)
+                        (name b : string) (i : inp) : list (string * str) :=
+  match fuel with
+  | O => []
+  | S k =>
+      site_accesses g cwd root_arg i name b sites ++
+      flat_map (fun e =>
+        if (String.eqb (cc_method e) name && Bool.eqb (reads_handle (cc_arg e)) (String.eqb b "File"))%bool
+        then match peval g true cwd root_arg i (cc_arg e) with
+             | Some a => entry_accesses k g cwd root_arg entries sites (cc_member e) b (with_arg i a)
+             | None => []
+             end
+        else []) entries
+  end.
+
 (** the os.walk contract (the OS is outside the model) *)
 Definition walk_contract (os_walk : str -> list (str * list str)) : Prop :=
   forall top d fs, In (d, fs) (os_walk top) ->
